@@ -107,7 +107,12 @@ def sig_c15_resurrect(oracle, inp, ver):
     return False
 
 
+def sig_c10_props(oracle, inp, ver):
+    return oracle == "probe:propsUntouched" and "propsMutator" in (inp.get("feat") or [])
+
+
 SIGNATURES = {
+    "c10-props-shallow-copy": sig_c10_props,
     "c15-delete-then-recreate-within-one-round": sig_c15_resurrect,
     "c03-repeated-variable-structured-values": sig_c03_repeated_structured,
     "c03-invalid-at-one-key-nonmatching-at-another": sig_c03_invalid_vs_nomatch,
@@ -383,5 +388,70 @@ PROPS = {
                  "structure compared); well-formed ones are additionally loaded as JSON, as YAML by the repository's loader and by the "
                  "sio crew's loader, with JSON-text patterns, compiled three times, and dumped and reloaded; all variants are walked over "
                  "three fixed message sequences and must behave identically.  Non-trivial: more than one node."),
+    },
+    "C09": {
+        "modules": ["Sheens.Props.C09"],
+        "theorems": [],
+        "facts": [],
+        "runs": {
+            "quick": [("persist", ["-n", "1200"]), ("walk", ["-profile", "persist", "-n", "800"])],
+            "thorough": [("persist", ["-n", "30000"]), ("walk", ["-profile", "persist", "-n", "10000"])],
+        },
+        "analyze": analyze_generic,
+        "oracles": ["total"],
+        "probes": ["persistUnobservable", "statePlain", "noPanic"],
+        "rule": ENGINE_RULE + "  Persist runs: histories of 3-5 messages delivered one at a time; the same history is run with the state "
+                "kept in memory, with a JSON write/read of the state at each single boundary, and at every boundary; per-message "
+                "observations must be identical; every reached state is compared with its own JSON round trip type for type.",
+    },
+    "C10": {
+        "modules": ["Sheens.Props.C10"],
+        "theorems": [],
+        "facts": ["runtime_is_per_exec", "bindings_deep_copied"],
+        "runs": {
+            "quick": [("isolation", ["-n", "150"]), ("walk", ["-profile", "failing", "-n", "500"])],
+            "thorough": [("isolation", ["-n", "3000"]), ("walk", ["-profile", "failing", "-n", "5000"])],
+        },
+        "analyze": analyze_generic,
+        "oracles": [],
+        "probes": ["bindingsUntouched", "laterExecutionPristine", "repeatPristine", "concurrentPristine", "propsUntouched", "untouched"],
+        "rule": ("polluter scripts (define globals, patch Object/Array/String prototypes, replace JSON/Math members and members of the "
+                 "environment object, mutate their bindings in place at depth, delete bindings, mutate the step properties) followed by a "
+                 "probe script that reports everything it can see, run sequentially on the same interpreter and concurrently from 16 "
+                 "goroutines on the same compiled sources; the caller's bindings and props are snapshotted before and after.  "
+                 "Non-trivial: every case."),
+    },
+    "C11": {
+        "modules": ["Sheens.Props.C11"],
+        "theorems": [],
+        "facts": ["es_watcher", "es_error_exits_nil_exe"],
+        "runs": {
+            "quick": [("timeouts", ["-n", "60"]), ("step", ["-profile", "timeouts", "-n", "150"])],
+            "thorough": [("timeouts", ["-n", "600"]), ("step", ["-profile", "timeouts", "-n", "1500"])],
+        },
+        "analyze": analyze_generic,
+        "oracles": ["total", "rule", "errSame"],
+        "probes": ["stopsWithError", "prompt", "noGoroutineLeak", "timeoutRoutedAsActionError"],
+        "rule": ("scripts whose time is spent in interpreted code (empty loop, unbounded recursion, array churn, property churn, nested "
+                 "arithmetic loops) under deadlines from already expired to 200 ms, with cancellation at a random moment, 1-16 concurrent "
+                 "executions; every execution must end with an error within the deadline plus a generous slack (1.5 s, to stay clear of "
+                 "scheduling noise), the goroutine count must return to its baseline, and a step must route the timeout as an action "
+                 "error.  Plus the engine correspondence on steps whose action or guard spins until the deadline."),
+    },
+    "C12": {
+        "modules": ["Sheens.Props.C12"],
+        "theorems": [],
+        "facts": ["specter_atomic", "engine_writes_only_locals", "matcher_writes_only_locals_and_bindings"],
+        "runs": {
+            "quick": [("concurrent", ["-n", "250"])],
+            "thorough": [("concurrent", ["-n", "4000"])],
+        },
+        "analyze": analyze_generic,
+        "oracles": [],
+        "probes": ["concurrentSameAsAlone", "specUntouched", "oneCompleteVersion", "noPanic"],
+        "rule": ("two random compiled specs; 8 distinct machine states walked over the same spec object from 24 goroutines and compared "
+                 "with the result each obtains alone; the same walks through an UpdatableSpec that another goroutine keeps swapping between "
+                 "the two versions, each result compared with the results under either version.  (The race detector is not available to "
+                 "the quick tier; the thorough tier re-runs the probes in a -race build.)"),
     },
 }
